@@ -181,7 +181,11 @@ func (e *Env) eval(x Expr) Val {
 			}
 			return Val{S: es, T: sel, Typ: et}
 		case strings.HasPrefix(b.S, "(Array"):
-			return Val{S: arrayElemSort(b.S), T: "(select " + b.T + " " + i.T + ")"}
+			asel := "(select " + b.T + " " + i.T + ")"
+			if strings.HasPrefix(i.T, "qv!") && !strings.Contains(b.T, "qv!") {
+				e.patterns = append(e.patterns, asel)
+			}
+			return Val{S: arrayElemSort(b.S), T: asel}
 		case b.Typ != nil:
 			if mt, ok := b.Typ.Underlying().(*types.Map); ok {
 				ms := fc.mapSort(mt)
@@ -864,7 +868,7 @@ func (e *Env) callExpr(n *ECall) Val {
 		case "calls":
 			// calls("key") : ghost call counter
 			k := strings.Trim(n.Args[0].String(), "\"")
-			if t, ok := e.state().calls[k]; ok {
+			if t, ok := e.state().ghosts["#calls:"+k]; ok {
 				return intVal(t)
 			}
 			return intVal("0")
